@@ -2,12 +2,15 @@ P = dict(
     features={"quick": [None, "fixed_point"], "thorough": [None, "fixed_point"]},
     bin="egv_c06", trace="Trace_C06", level="model_checking",
     mc=[dict(module="MC_C06", quick_cfg="MC_C06.cfg", thorough_cfg="MC_C06_thorough.cfg", workers=8),
-        dict(module="MC_C06", quick_cfg="MC_C06_control.cfg", expect_violation=True, coverage=False, workers=8)],
+        dict(module="MC_C06", quick_cfg="MC_C06_control.cfg", expect_violation=True, coverage=False, workers=8),
+        dict(module="MC_C06e", quick_cfg="MC_C06e.cfg", thorough_cfg="MC_C06e_thorough.cfg", workers=12, thorough_timeout=3000),
+        dict(module="MC_C06e", quick_cfg="MC_C06e_control_ell.cfg", expect_violation=True, coverage=False, workers=8),
+        dict(module="MC_C06e", quick_cfg="MC_C06e_control_rr.cfg", expect_violation=True, coverage=False, workers=8)],
     proofs=["Proof_C06"],
     required_events=["styled"],
     level_text="MC_C06 steps the transcribed call decompositions of styled rectangles (five rectangles) and circles (styled "
                "scanlines) call by call and compares the resulting map with the painting rule over the transcribed areas (one "
-               "negative control); for every closed shape x style of an exhaustive small domain (sizes <= 10x10, stroke widths 0..7 so that the "
+               "negative control); MC_C06e does the same for styled ellipses and rounded rectangles (EGStyledCurve: styled scanlines, one row per step, along the draw() route and the pixels() route, which select their branch differently; two negative controls); for every closed shape x style of an exhaustive small domain (sizes <= 10x10, stroke widths 0..7 so that the "
                "fill area collapses, three alignments, four colour presences) plus seeded larger ones, TLC checks the pixel "
                "maps of draw() and pixels() against the painting rule over the point sets of the public fill_area() / "
                "stroke_area(), and the documented geometry of the two areas",
